@@ -69,6 +69,8 @@ class Observer(BaseComponent):
                       repr(getattr(args[1], 'args', None)) if len(args) > 1 else None,
                       getattr(kwargs.get('handler'), '__name__', None),
                       isinstance(args[2], list) if len(args) > 2 else None)
+        elif name in ('started', 'stopped'):
+            argsig = (bool(args) and args[0] is w.root,)
         elif par is not None and eid is None and args:
             # feedback events (<name>_success / _failure / _complete / _done ...): does the first argument name the original
             # event, and what is the second one
